@@ -137,6 +137,24 @@ CLAIMED = {
         "Trusted: symx; index values in [0,B] (B<=3 quick, <=5 thorough), m<=2 (3) must-link and c<=2 cannot-link pairs; check_array on "
         "pair lists stubbed to identity.",
         "DESIGN.md §4 C14", "symbolic execution of the repository source (symx): symbolic values/indices, decisions forked with z3 feasibility, post-conditions by term identity or path evaluation"),
+    "C11": (
+        "pairwise_kernels / pairwise_distances are recording uninterpreted functions returning fresh symbolic matrices keyed by "
+        "(name, params, data identity).  For every estimator exposing kernel/metric/ovo/gemini/base_kernel x names x parameter "
+        "dicts x callable x precomputed: get_gemini() class and settings, compute_affinity forwards exactly (name, params, X) / "
+        "returns the callable's output / returns y / raises when the matrix is missing; KernelRIM and Kauri kernels likewise; a "
+        "one-epoch symbolic fit, score and Kauri's split search receive IDENTICAL terms whether the kernel is named or passed "
+        "precomputed.",
+        "Trusted: what scikit-learn computes for a kernel or metric name is outside; same-fit uses stubbed GEMINI values and one epoch; "
+        "this check is symbolic through uninterpreted functions and term identity, the solver only decides path feasibility.",
+        "DESIGN.md §4 C11", "symbolic execution of the repository source (symx) under recording/uninterpreted stubs: identity of symbolic terms and recorded calls (z3 only for path feasibility)"),
+    "C12": (
+        "Claimed in part.  Non-interference: every attribute an earlier call could leave is set to stale symbols / sentinels before a "
+        "one-epoch symbolic fit and no result term may depend on them (syntactic dependency analysis of the terms); fits after every "
+        "sequence of <=2 earlier public calls equal the fresh fit term for term; caller's data / affinity / hyper-parameters are "
+        "untouched (term identity); get_params/set_params/clone round trips for all 18 estimators; Kauri refits concretely.",
+        "Trusted: RNG stub = deterministic function of random_state (NumPy's generator outside); bit-for-bit float reproducibility "
+        "outside; one epoch, stub environment; histories of length <= 2.",
+        "DESIGN.md §4 C12", "symbolic execution of the repository source (symx) under recording/uninterpreted stubs: identity of symbolic terms and recorded calls (z3 only for path feasibility)"),
 }
 
 NOT_APPLICABLE = {
